@@ -15,7 +15,9 @@ FIELDS = [['matches'], ['matches', 0], ['matches', 0, 'offset'], ['matches', 0, 
           ['matches', 0, 'context'], ['matches', 0, 'context', 'text'], ['matches', 0, 'context', 'offset'],
           ['matches', 0, 'context', 'length'], ['matches', 0, 'replacements'], ['matches', 0, 'replacements', 0],
           ['matches', 0, 'replacements', 0, 'value'], ['matches', 0, 'rule'], ['matches', 0, 'rule', 'id'],
-          ['matches', 0, 'rule', 'category'], ['matches', 0, 'rule', 'category', 'name']]
+          ['matches', 0, 'rule', 'category'], ['matches', 0, 'rule', 'category', 'name'], ['matches', 0, 'rule', 'subId'],
+          ['matches', 0, 'rule', 'urls'], ['matches', 0, 'rule', 'urls', 0], ['matches', 0, 'rule', 'urls', 0, 'value']]
+TYPES = [None, True, 'x', 3, 1.5, [], {}, [1], {'a': 1}]
 VALUES = [None, True, 'x', 3, -1, 1.5, [], {}, [1], {'a': 1}, 10 ** 30, -10 ** 30, 10 ** 5]
 
 def gen_cases(ctx):
@@ -43,6 +45,14 @@ def gen_cases(ctx):
         elif op == 'add':
             mu['value'] = rng.choice([1, -1, 1000, -1000])
         add(doc, rng.choice(MODES), {'frac_spans': [(rng.random() * 0.9, rng.randint(0, 6))], 'mutations': [mu]}, 'mutate:' + op)
+    # every field x every JSON type x every output mode (a generator may look at an optional field in one mode only)
+    for path in FIELDS:
+        for val in TYPES:
+            for mode in MODES:
+                if ctx.tier == 'thorough' or rng.random() < 0.5:
+                    add(DOCS[0], mode, {'frac_spans': [(0.3, 2)], 'mutations': [{'op': 'set', 'path': path, 'value': val}]}, 'mutate:type')
+        for mode in MODES:
+            add(DOCS[0], mode, {'frac_spans': [(0.3, 2)], 'mutations': [{'op': 'del', 'path': path}]}, 'mutate:del')
     # every numeric field set to huge / negative values
     for path in [p for p in FIELDS if p[-1] in ('offset', 'length')]:
         for val in (10 ** 30, -10 ** 30, -1, 10 ** 5):
